@@ -91,7 +91,7 @@ def matrix_pre(res, prop, tier, seed, t_end, specs, observers=(), watcher=False)
     for label, cases, sample in specs:
         if res.findings:
             return
-        Mx.run_cases(res, prop, cases(), tier, seed, t_end, sample, observers, PROPS[prop]['scope'] if label not in ('ttl-rules', 'missing-keys', 'floats', 'sets', 'lists', 'zsets', 'set-options', 'sort') or prop in ('C01', 'C02', 'C03') and label in ('sets', 'lists', 'zsets', 'set-options', 'sort') else None,
+        Mx.run_cases(res, prop, cases(), tier, seed, t_end, sample, observers, PROPS[prop]['scope'] if label not in ('ttl-rules', 'missing-keys', 'floats', 'sets', 'lists', 'zsets', 'set-options', 'sort', 'all-types', 'dump-restore', 'server-commands') or prop in ('C01', 'C02', 'C03') and label in ('sets', 'lists', 'zsets', 'set-options', 'sort') else None,
                      label=label, watcher=watcher)
 
 
@@ -127,6 +127,12 @@ def run_C04(res, tier, seed, t_end, bad):
     if not res.findings:
         import aio
         aio.run_async_campaign(res, 'C04', aio.plan_async(60), budget(tier, 12, 300), seed + 3, t_end, None, obs)
+    if not res.findings:
+        matrix_pre(res, 'C04', tier, seed, t_end, [('server-commands', Mx.server_cases, 2000)], obs)
+    if not res.findings:
+        # what redis-py really writes to the socket (memoryview arguments travel as chunks of their own)
+        import clientlevel
+        clientlevel.run_C17(res, tier, seed, t_end, only_buffers=True, prop='C04')
 
 
 def parser_function_level(res, tier, seed):
@@ -327,7 +333,8 @@ def run_C08(res, tier, seed, t_end, bad):
     if not res.findings:
         # in full, with a second client that WATCHes every key of the case just before its last command
         matrix_pre(res, 'C08', tier, seed, t_end, [('floats', Mx.floats_cases, 1000), ('set-options', Mx.set_option_cases, 1000), ('lists', Mx.lists_cases, 2200),
-                                                   ('strings', Mx.strings_cases, 2200), ('zsets', Mx.zsets_cases, 1200), ('sets', Mx.sets_cases, 100)], obs, watcher=True)
+                                                   ('strings', Mx.strings_cases, 2200), ('zsets', Mx.zsets_cases, 1200), ('sets', Mx.sets_cases, 100), ('dump-restore', Mx.dump_cases, 200),
+                                                   ('all-types', lambda: Mx.alltype_cases(random.Random(seed), 1 if tier == 'quick' else 6), 900)], obs, watcher=True)
 
 
 # ---- C09 -------------------------------------------------------------------------------------
@@ -875,6 +882,10 @@ def run_C19(res, tier, seed, t_end, bad):
         res.add({'kind': 'setup', 'verdict': 'unconstrained', 'what': 'correspondence:C19: no lupa module (stand-in missing)'})
         return
     res.notes.append('Lua host: %s' % where)
+    import clientlevel
+    clientlevel.run_C19_cache(res, tier, seed, t_end)
+    if res.findings:
+        return
     plan = Sx.plan_scripts(budget(tier, 45, 70))
     for h in range(budget(tier, 40, 1000)):
         if time.time() > t_end:
